@@ -434,6 +434,44 @@ def m_for_each(I, st, c, args, body, t):
     return st, UNIT
 
 
+def m_try_for_each(I, st, c, args, body, t):
+    """try_for_each(f): like for_each, but stops at the first Err / None the closure returns, which is then the result"""
+    it = M.to_iter(I, st, args[0])
+    st, out = _elems(I, st, it)
+    good, badn = ("Ok", "Err")
+    acc_bad = None
+    okv = None
+    if out is None:
+        item = it.end if it.end is not None else Top(it.deps, "item of unknown iterator")
+        out = [("maybe", item)]
+    done_states = []
+    for cnd, e in out:
+        s2, r = I.call_value(st.copy() if cnd != "always" else st, args[1], [e])
+        r = opt_cases(I, s2, r) if isinstance(r, EnumV) or r is None else r
+        if isinstance(r, EnumV) and r.adt == OPT:
+            good, badn = ("Some", "None")
+        if isinstance(r, EnumV) and r.may(badn):
+            # the closure may stop the iteration here
+            sb = s2.copy()
+            if I.install_guard(sb, r.variants[badn][1], narrowed=len(r.variants) > 1):
+                done_states.append((sb, EnumV(r.adt, {badn: r.variants[badn]})))
+        if isinstance(r, EnumV) and r.may(good):
+            if not I.install_guard(s2, r.variants[good][1], narrowed=len(r.variants) > 1):
+                break
+            okv = EnumV(r.adt, {good: ((UNIT,), {})})
+        elif not isinstance(r, EnumV):
+            okv = None
+        else:
+            break       # cannot continue
+        if cnd == "always":
+            st = s2
+        else:
+            st, _ = I.join_states(st, s2)
+    if okv is None:
+        okv = EnumV(RES, {"Ok": ((UNIT,), {})})
+    return M.join_results(I, [(st, okv)] + done_states)
+
+
 def m_minmax_by_key(I, st, c, args, body, t):
     it = M.to_iter(I, st, args[0])
     st, out = _elems(I, st, it)
@@ -1334,6 +1372,26 @@ def m_from_bytes(I, st, c, args, body, t):
     return st, IntV(ty, tuple(bits), None, None, None, d)
 
 
+def m_is_none_or(I, st, c, args, body, t):
+    """Option::is_none_or(pred): true for None, pred(x) for Some(x)"""
+    o = opt_cases(I, st, args[0])
+    if o.only("None"):
+        return st, BoolV(True)
+    s1 = st.copy()
+    multi = len(o.variants) > 1
+    if not I.install_guard(s1, o.variants["Some"][1], narrowed=multi):
+        return st, BoolV(True)
+    s1, r = I.call_value(s1, args[1], [I.resolve(s1, o.payload("Some"))])
+    if not isinstance(r, BoolV):
+        r = BoolV(None, None, deps_of(r))
+    if o.only("Some"):
+        return s1, r
+    st2, _ = I.join_states(st.copy(), s1)
+    if r.val is True:
+        return st2, BoolV(True)
+    return st2, BoolV(None, None, r.deps | deps_of(o))
+
+
 def m_or_else(I, st, c, args, body, t):
     o = opt_cases(I, st, args[0])
     if o.only("Some"):
@@ -1442,6 +1500,7 @@ def m_bool_then(I, st, c, args, body, t):
     # Some side
     s1 = st.copy()
     if I.refine(s1, b, True):
+        I.note_atoms(s1, b, True)          # the Some side is under the condition: its atoms go into the variant's guard
         if nm == "then_some":
             r = args[1]
         else:
@@ -1455,6 +1514,7 @@ def m_bool_then(I, st, c, args, body, t):
         return (s1, EnumV(OPT, out)) if out else (st, EnumV.none())
     s0 = st.copy()
     if I.refine(s0, b, False):
+        I.note_atoms(s0, b, False)
         out["None"] = ((), M.guard_from(I, st, s0, {"deps": b.deps}))
     if nm != "then_some" and "Some" in out:
         st, _ = I.join_states(st, s1)
@@ -1678,7 +1738,7 @@ def install(models):
     for nm, f in (("rev", m_rev), ("skip", m_skip_take), ("take", m_skip_take), ("step_by", m_step_by), ("zip", m_zip), ("chain", m_chain),
                   ("take_while", m_take_skip_while), ("skip_while", m_take_skip_while),
                   ("sum", m_sum), ("product", m_sum), ("count", m_count), ("position", m_position), ("find", m_find),
-                  ("find_map", m_find_map), ("last", m_last), ("nth", m_nth), ("for_each", m_for_each),
+                  ("find_map", m_find_map), ("last", m_last), ("nth", m_nth), ("for_each", m_for_each), ("try_for_each", m_try_for_each),
                   ("max_by_key", m_minmax_by_key), ("min_by_key", m_minmax_by_key)):
         E[it + nm] = f
     E["std::iter::DoubleEndedIterator::rposition"] = m_position   # (not reversed: conservative Some-range is computed the same way)
@@ -1763,6 +1823,7 @@ def install(models):
     E[o + "get_or_insert"] = m_get_or_insert
     E[o + "get_or_insert_with"] = m_get_or_insert
     E[o + "flatten"] = m_opt_flatten
+    E[o + "is_none_or"] = m_is_none_or
     E[o + "as_mut"] = M.m_as_ref
     E[o + "as_deref"] = M.m_as_ref
     E[r + "ok"] = m_res_ok_err
